@@ -70,19 +70,35 @@ def scaled_calls(cls, p, g, d, operands, rng, ints, npairs=300):
     def rec(op, rnd, a, b, c, res, flags=None):
         r = dict(base)
         r.update(op=op, rnd=rnd, a=a, b=b, c=c)
+        if callable(flags):
+            try:
+                flags = flags()
+            except Exception:
+                flags = [None] * 6
+        if callable(res):
+            try:
+                res = res()
+            except Exception:
+                res = None
         if flags is not None:
-            r['flags'] = flags
+            r['flags'] = [bool(f) for f in flags]
             r['same_cls'] = all(isinstance(f, bool) for f in flags)
         else:
             r['same_cls'] = type(res) is V
             r['r'] = getattr(res, '_value', 0) if r['same_cls'] else 0
+            if not isinstance(r['r'], int) or abs(r['r']) >= LIM:
+                r['r'] = 0
+                r['same_cls'] = False
         out.append(r)
     for a in operands:
         A = mk(a)
-        rec('neg', 'op', a, 0, 0, -A)
-        rec('pos', 'op', a, 0, 0, +A)
-        rec('abs', 'op', a, 0, 0, abs(A))
-        s0 = str(A)
+        rec('neg', 'op', a, 0, 0, lambda: -A)
+        rec('pos', 'op', a, 0, 0, lambda: +A)
+        rec('abs', 'op', a, 0, 0, lambda: abs(A))
+        try:
+            s0 = str(A)
+        except Exception:
+            s0 = 'EXC'
         ps = parse_str(s0)
         r = dict(base)
         r.update(op='str', a=a, unchanged=(A._value == a), same_cls=True)
@@ -90,36 +106,36 @@ def scaled_calls(cls, p, g, d, operands, rng, ints, npairs=300):
         out.append(r)
         for k in ints:
             if fits(a * k, a + k * S):
-                rec('mulint', 'op', a, k, 0, A * k)
-                rec('addint', 'op', a, k, 0, A + k)
+                rec('mulint', 'op', a, k, 0, lambda: A * k)
+                rec('addint', 'op', a, k, 0, lambda: A + k)
                 if k != 0:
-                    rec('floordivint', 'op', a, k, 0, A // k)
+                    rec('floordivint', 'op', a, k, 0, lambda: A // k)
     for k in ints:
         if fits(k * S):
-            rec('fromint', 'op', k, 0, 0, V(k))
+            rec('fromint', 'op', k, 0, 0, lambda: V(k))
     pairs_ = [(a, b) for a in operands for b in operands]
     rng.shuffle(pairs_)
     for a, b in pairs_[:npairs]:
         A, B = mk(a), mk(b)
-        rec('add', 'op', a, b, 0, A + B)
-        rec('sub', 'op', a, b, 0, A - B)
-        rec('cmp', 'op', a, b, 0, None, flags=[A < B, A <= B, A == B, A != B, A > B, A >= B])
+        rec('add', 'op', a, b, 0, lambda: A + B)
+        rec('sub', 'op', a, b, 0, lambda: A - B)
+        rec('cmp', 'op', a, b, 0, None, flags=lambda: [A < B, A <= B, A == B, A != B, A > B, A >= B])
         if fits(a * b, a * S, 4 * b):
-            rec('mul', 'op', a, b, 0, A * B)
+            rec('mul', 'op', a, b, 0, lambda: A * B)
             for rnd in ('down', 'up'):
-                rec('mul', rnd, a, b, 0, V.mul(A, B, round=rnd))
+                rec('mul', rnd, a, b, 0, lambda: V.mul(A, B, round=rnd))
             if b != 0:
-                rec('div', 'op', a, b, 0, A / B)
-                rec('div', 'op', a, b, 0, A // B)
+                rec('div', 'op', a, b, 0, lambda: A / B)
+                rec('div', 'op', a, b, 0, lambda: A // B)
                 for rnd in ('down', 'up'):
-                    rec('div', rnd, a, b, 0, V.div(A, B, round=rnd))
+                    rec('div', rnd, a, b, 0, lambda: V.div(A, B, round=rnd))
             c = rng.choice(operands)
             if c != 0 and fits(a * b, 4 * c):
                 C = mk(c)
                 for rnd in ('down', 'up'):
-                    rec('muldiv', rnd, a, b, c, V.muldiv(A, B, C, round=rnd))
+                    rec('muldiv', rnd, a, b, c, lambda: V.muldiv(A, B, C, round=rnd))
             c2 = rng.choice(operands)
-            rec('min', 'op', a, b, c2, V.min([A, B, mk(c2)]))
+            rec('min', 'op', a, b, c2, lambda: V.min([A, B, mk(c2)]))
     return out
 
 
@@ -269,6 +285,34 @@ def big_calls(rng, tier):
                 r['pu'] = limbs(-units if ps['neg'] else units)
                 r['Db'] = limbs(D)
                 r['digits_ok'] = bool(ok and not (ps['neg'] and units == 0 and False))
+            out.append(r)
+    # huge and long rationals: the printed form is still the exact value rounded half-up
+    from fractions import Fraction
+    for d in (0, 3, 12, 18):
+        V = setup('rational', d=d)
+        for _ in range(12 if tier == 'quick' else 150):
+            num = rng.choice([rng.randint(0, 10 ** rng.choice([5, 17, 30])), 10 ** 17 + 35, 3 * 10 ** 17 // 2 * 2 + 33])
+            den = rng.choice([1, 2, 3, 7, 10 ** 9 + 7, 2 ** 40])
+            if rng.random() < 0.3:
+                num, den = den * rng.randint(1, 10 ** 6) - 1, den * 10 ** rng.choice([3, 12, 18])     # a hair below an integer
+            if rng.random() < 0.2:
+                num = -num
+            x = V(num, den)
+            try:
+                s0 = str(x)
+            except Exception:
+                s0 = 'EXC'
+            ps = parse_str(s0)
+            r = dict(big=True, cls='rational', p=0, g=0, d=d, dEff=d, Sb=limbs(1), gepsb=limbs(1), rnd='op', op='strq', a=limbs(x.numerator), ad=limbs(x.denominator),
+                     b=limbs(0), c=limbs(0), r=limbs(0), same_cls=True, flags=[False] * 6, unchanged=(x == Fraction(num, den)), pu=limbs(0), Db=limbs(1), digits_ok=False)
+            if ps is not None:
+                if d == 0:
+                    units, D, ok = ps['ip'], 1, (ps['fd'] == 1 and ps['fr'] == 0 and ps['gfd'] == 0)
+                else:
+                    units, D, ok = ps['ip'] * 10 ** ps['fd'] + ps['fr'], 10 ** ps['fd'], (ps['fd'] == d and ps['gfd'] == 0)
+                r['pu'] = limbs(-units if ps['neg'] else units)
+                r['Db'] = limbs(D)
+                r['digits_ok'] = bool(ok)
             out.append(r)
     return out
 
